@@ -3,6 +3,7 @@ CONSTANTS
   Att = {1,2,3,4}
   Keys = {"", "K1", "K2"}
   MaxReq = 3
+  MaxHangups = 0
   PerReqKey = FALSE
   EmitEdges = FALSE
 INVARIANTS TypeOK OneShell Consistent IdleIsInitial ExactlyOneGone ReadyAtMostOncePerGen ShutdownWaits SameRequest AtMostOneIO NoMixIOUni
